@@ -656,16 +656,20 @@ Definition obj_of_obs (o : oobs) : obj tV tJ :=
          end)
         (b_fmt o) (b_scale o) None.
 
-Definition check_eqhash (c : oobs * oobs * Z * bool) : Z :=
+(* pyfloat: one of the two objects keeps its jd1/jd2 as Python floats (a single epoch built from one datetime);
+   verdict 3 = equal in every respect (same shape, same jd bits) and still another hash: __hash__ hashes str()
+   of Python floats and the bytes of NumPy values *)
+Definition check_eqhash (c : oobs * oobs * Z * bool * bool) : Z :=
   match c with
-  | (a, b, eq_obs, hash_eq) =>
+  | (a, b, eq_obs, hash_eq, pyfloat) =>
     let oa := obj_of_obs a in let ob := obj_of_obs b in
     let la := length (flat _ (o_jd _ _ oa)) in let lb := length (flat _ (o_jd _ _ ob)) in
     let em := if negb (b_scale a =? b_scale b) then 0
               else if Nat.eqb la lb || Nat.eqb la 1 || Nat.eqb lb 1
                    then (if eq_model tV tJ tJ_eqb oa ob then 1 else 0) else 2 in
     if negb (eq_obs =? em) then 1
-    else if (eq_obs =? 1) && negb hash_eq then (if eq_spec tV tJ tJ_eqb oa ob then 1 else 2)
+    else if (eq_obs =? 1) && negb hash_eq
+         then (if eq_spec tV tJ tJ_eqb oa ob then (if pyfloat then 3 else 1) else 2)
     else 0
   end.
 
